@@ -1,6 +1,7 @@
 import props as _props
 
 PROP = {
+    "confirm_scenarios": ['idle', 'blockedwrite'],
     "coq": ["C09"],
     "extra": [_props.race_detector_run("C09")],
     "exhaustive": False,
